@@ -1,49 +1,106 @@
-//! Wall-clock watchdog for CPU-only loops inside `open` (C10). It is the single place a real clock
+//! Wall-clock watchdog for CPU-only loops inside the code under test. It is the single place a real clock
 //! is read; it can only add a failure, and the failure is reported through a replay file.
+//! Two kinds of entries: a specific (case, fault) pair being evaluated (C10: `open` on a damaged image, 20 s),
+//! and a whole seeded run (every property, 90 s: a run normally takes milliseconds) which is replayed by
+//! re-running the run function on the same run seed.
 use std::sync::Mutex;
 use std::time::Instant;
 
 use crate::case::Case;
 use crate::fault::Fault;
 
+enum What {
+    Case { case: Case, fault: Fault },
+    Run { run_seed: u64, index: usize, tier: String },
+}
+
 struct Armed {
     since: Instant,
+    limit_s: u64,
     prop: String,
-    case: Case,
-    fault: Fault,
+    what: What,
 }
 
 static SLOTS: Mutex<Vec<(std::thread::ThreadId, Armed)>> = Mutex::new(Vec::new());
 static STARTED: std::sync::Once = std::sync::Once::new();
 
 pub const LIMIT_S: u64 = 20;
+pub const RUN_LIMIT_S: u64 = 90;
 
-pub fn arm(prop: &str, case: &Case, fault: &Fault) {
+fn out_root() -> String {
+    std::env::var("VERIF_OUT").ok().filter(|s| !s.is_empty()).or_else(|| std::env::var("VERIF_ROOT").ok()).unwrap_or_else(|| "/verif".to_string())
+}
+
+fn start() {
     STARTED.call_once(|| {
         std::thread::spawn(|| loop {
             std::thread::sleep(std::time::Duration::from_secs(1));
             let slots = SLOTS.lock().unwrap();
             for (_, a) in slots.iter() {
-                if a.since.elapsed().as_secs() >= LIMIT_S {
-                    let root = std::env::var("VERIF_ROOT").unwrap_or_else(|_| "/verif".to_string());
+                if a.since.elapsed().as_secs() >= a.limit_s {
+                    let root = out_root();
                     let _ = std::fs::create_dir_all(format!("{root}/replays"));
                     let path = format!("{root}/replays/{}-watchdog-{}.json", a.prop, std::process::id());
-                    let found = crate::check::Found { prop: a.prop.clone(), clause: "hang".to_string(), detail: format!("open did not return within {LIMIT_S} s of wall-clock time"), case: a.case.clone(), fault: a.fault.clone() };
-                    let doc = serde_json::json!({"property": a.prop, "clause": "hang", "detail": found.detail, "found": found});
+                    let doc = match &a.what {
+                        What::Case { case, fault } => {
+                            let found = crate::check::Found { prop: a.prop.clone(), clause: "hang".to_string(), detail: format!("open did not return within {} s of wall-clock time", a.limit_s), case: case.clone(), fault: fault.clone() };
+                            serde_json::json!({"property": a.prop, "clause": "hang", "detail": found.detail, "found": found})
+                        }
+                        What::Run { run_seed, index, tier } => serde_json::json!({
+                            "property": a.prop, "clause": "hang",
+                            "detail": format!("a call into the log did not return within {} s of wall-clock time (CPU-only loop: no file-system call was pending)", a.limit_s),
+                            "hung_run": {"run_seed": run_seed.to_string(), "run_index": index, "tier": tier},
+                        }),
+                    };
                     let _ = std::fs::write(&path, serde_json::to_string_pretty(&doc).unwrap());
+                    // the evidence file must not survive from an earlier run
+                    let ev = serde_json::json!({"property_id": a.prop, "tier": "quick", "seed": 0, "level": "exploration", "coverage": {"evaluations": 0, "distinct_nontrivial": 0, "rule": "aborted by the wall-clock watchdog", "samples": [], "exhaustive": false}, "assumptions": [], "wall_s": a.since.elapsed().as_secs_f64(), "violations": 1});
+                    let _ = std::fs::create_dir_all(format!("{root}/evidence"));
+                    let _ = std::fs::write(format!("{root}/evidence/{}.json", a.prop), serde_json::to_string_pretty(&ev).unwrap());
+                    println!("  failure: {}/hang: {}", a.prop, doc["detail"].as_str().unwrap_or(""));
                     println!("VIOLATION property={} replay={}", a.prop, path);
                     std::process::exit(1);
                 }
             }
         });
     });
-    let id = std::thread::current().id();
-    let mut slots = SLOTS.lock().unwrap();
-    slots.retain(|(t, _)| *t != id);
-    slots.push((id, Armed { since: Instant::now(), prop: prop.to_string(), case: case.clone(), fault: fault.clone() }));
 }
 
+fn push(a: Armed) {
+    start();
+    SLOTS.lock().unwrap().push((std::thread::current().id(), a));
+}
+
+pub fn arm(prop: &str, case: &Case, fault: &Fault) {
+    push(Armed { since: Instant::now(), limit_s: LIMIT_S, prop: prop.to_string(), what: What::Case { case: case.clone(), fault: fault.clone() } });
+}
+
+/// Armed around every seeded run by `check::search` (and by the replay of a hung run).
+pub fn arm_run(prop: &str, run_seed: u64, index: usize, tier: &str) {
+    push(Armed { since: Instant::now(), limit_s: RUN_LIMIT_S, prop: prop.to_string(), what: What::Run { run_seed, index, tier: tier.to_string() } });
+}
+
+/// Removes the innermost entry of the calling thread.
 pub fn disarm() {
     let id = std::thread::current().id();
-    SLOTS.lock().unwrap().retain(|(t, _)| *t != id);
+    let mut slots = SLOTS.lock().unwrap();
+    if let Some(i) = slots.iter().rposition(|(t, _)| *t == id) {
+        slots.remove(i);
+    }
+}
+
+/// Disarms on drop (also when the run unwinds).
+pub struct RunGuard;
+
+impl RunGuard {
+    pub fn new(prop: &str, run_seed: u64, index: usize, tier: &str) -> RunGuard {
+        arm_run(prop, run_seed, index, tier);
+        RunGuard
+    }
+}
+
+impl Drop for RunGuard {
+    fn drop(&mut self) {
+        disarm();
+    }
 }
